@@ -2,8 +2,8 @@
    Only statements: every proof is [exact <lemma>], followed by Print Assumptions.
    The two statements the faithful model violates (findings F5, F6) are in Refuted/C20_*.v. *)
 From Coq Require Import List QArith ZArith Bool Ascii String.
-From SB3V Require Import Gen.Frag_logger Model.Csv Model.Logger Proofs.CsvProofs Proofs.LoggerProofs
-  Refuted.C20_csv_multiline Refuted.C20_human_exclude Refuted.C20_blank_row.
+From SB3V Require Import Gen.Frag_logger Model.Csv Model.Logger Model.HumanFormat Proofs.CsvProofs Proofs.LoggerProofs Proofs.HumanFormatProofs
+  Refuted.C20_csv_multiline Refuted.C20_human_exclude Refuted.C20_blank_row Refuted.C20_human_slash_key.
 Import ListNotations.
 
 (* ---- record / record_mean / dump ---- *)
@@ -202,3 +202,95 @@ Theorem C20_csv_blank_row_dropped_refuted :
     List.length (expected_table (c_keys c) dumps) = 4%nat /\ no_blank_rows (expected_table (c_keys c) dumps) = false.
 Proof. exact Refuted.C20_blank_row.C20_csv_blank_row_dropped_refuted. Qed.
 Print Assumptions C20_csv_blank_row_dropped_refuted.
+
+(* ---- build round 5: the whole HumanOutputFormat.write (Model/HumanFormat.v): sort, tags, truncation, refusal, layout, and a reader ---- *)
+(* (a) a dump that is not refused prints a table that reads back as the writer's dict, row by row (cells right-padded to the column widths);
+   the key cells of that dict are exactly what the visible keys contribute - one per key, in the sorted order, nothing dropped or invented;
+   nothing at all is printed iff nothing is visible.  Side condition of the reader: no '|' inside a key. *)
+Theorem C20_human_table_reads_back : forall m l d lines,
+  Forall (fun e => no_bar (e_key e) = true) l -> key2str m l = Some d -> write_lines m l = Some lines ->
+  parse_table lines = Some (map (fun c => (pad (key_width d) (c_key c), pad (val_width d) (c_val c))) d) /\
+  key_cells d = cells_spec m l /\
+  (d = [] <-> visible l = []) /\ (d = [] -> lines = []).
+Proof. exact write_reads_back. Qed.
+Print Assumptions C20_human_table_reads_back.
+
+(* the order of the rows: the visible entries sorted by key (a permutation, ascending by code points), one key cell each *)
+Theorem C20_human_rows_sorted : forall m l,
+  Permutation.Permutation (visible l) (sort_e (visible l)) /\
+  Sorted.LocallySorted (fun a b => text_leb (e_key a) (e_key b) = true) (sort_e (visible l)) /\
+  List.length (cells_spec m l) = List.length (visible l).
+Proof. exact write_order. Qed.
+Print Assumptions C20_human_rows_sorted.
+
+(* (b) the dump is refused (ValueError) exactly when two visible keys are shown with the same text under the same tag, or a key is shown with the
+   text of its own tag header: a value is never overwritten silently *)
+Theorem C20_human_refused_iff_collision : forall m l,
+  let its := scan m [] (sort_e (visible l)) in
+  key2str m l <> None <->
+  NoDup (map (fun it => (it_tag it, it_key it)) its) /\
+  Forall (fun it => ~ (it_tag it <> [] /\ it_key it = truncate m (it_tag it))) its.
+Proof. exact write_refused_iff. Qed.
+Print Assumptions C20_human_refused_iff_collision.
+
+(* (c) every line has the same width, at most 2 * max_length + 7; no key or value cell is longer than max_length *)
+Theorem C20_human_table_rectangular : forall m l d, (3 <= m)%nat -> key2str m l = Some d ->
+  (Forall (fun s => List.length s = key_width d + val_width d + 7) (table_lines d) /\ key_width d + val_width d + 7 <= 2 * m + 7)%nat.
+Proof. exact write_width. Qed.
+Print Assumptions C20_human_table_rectangular.
+Theorem C20_human_cells_short : forall m l d, (3 <= m)%nat -> key2str m l = Some d ->
+  Forall (fun c => (List.length (c_key c) <= m /\ List.length (c_val c) <= m)%nat) d.
+Proof. exact write_cells_short. Qed.
+Print Assumptions C20_human_cells_short.
+
+(* (d) keys that fit are printed verbatim: a tagged key tag/rest as three spaces + rest under its tag (tag ++ rest = key); a key without "/" as it is *)
+Theorem C20_human_tagged_key_verbatim : forall m tag e i, find_slash (e_key e) = Some (S i) ->
+  let it := item_of m tag e in
+  let rest := skipn (S i + 1) (e_key e) in
+  it_tag it ++ rest = e_key e /\ ((3 + List.length rest <= m)%nat -> it_key it = three ++ rest).
+Proof. exact tagged_key_verbatim. Qed.
+Print Assumptions C20_human_tagged_key_verbatim.
+Theorem C20_human_plain_key_verbatim : forall m tag e, find_slash (e_key e) = None -> (tag = [] \/ find_slash tag <> None) ->
+  (List.length (e_key e) <= m)%nat -> it_key (item_of m tag e) = e_key e /\ it_tag (item_of m tag e) = tag.
+Proof. exact plain_key_verbatim. Qed.
+Print Assumptions C20_human_plain_key_verbatim.
+
+Example C20_human_example :
+  let T := fun s : string => list_ascii_of_string s in
+  let l := [mk_e (T "train/loss"%string) (T "0.5     "%string) false; mk_e (T "time"%string) (T "3"%string) false; mk_e (T "hidden"%string) (T "1"%string) true;
+            mk_e (T "train/a_very_long_key_name"%string) (T "abcdefghijklmnop"%string) false] in
+  option_map (map string_of_list_ascii) (write_lines 12 l) =
+    Some ["-------------------------------"; "| time         | 3            |"; "| train/       |              |";
+          "|    a_very... | abcdefghi... |"; "|    loss      | 0.5          |"; "-------------------------------"]%string /\
+  key2str 12 (l ++ [mk_e (T "train/a_very_long_key_too"%string) (T "2"%string) false]) = None /\
+  write_lines 12 [mk_e (T "hidden"%string) (T "1"%string) true] = Some [].
+Proof. vm_compute. repeat split. Qed.
+
+(* regenerated from HumanOutputFormat.write: the tag test `key.find("/") > 0` and the slice bound `key.find("/") + 1`; the indentation test
+   `len(tag) > 0 and tag in key`; the empty-table test; the frame width `key_width + val_width + 7`; the paddings `width - len(cell)` *)
+Theorem C20_human_tag_fragment : forall tag key,
+  next_tag tag key = if lg_tag_found (find_pos key) then (firstn (Z.to_nat (lg_tag_end (find_pos key))) key, true) else (tag, false).
+Proof. exact frag_next_tag. Qed.
+Print Assumptions C20_human_tag_fragment.
+Theorem C20_human_indent_fragment : forall tag key,
+  display_key tag key = if lg_indent_test (Z.of_nat (List.length tag)) (is_substr tag key) then three ++ skipn (List.length tag) key else key.
+Proof. exact frag_display_key. Qed.
+Print Assumptions C20_human_indent_fragment.
+Theorem C20_human_layout_fragment : forall kw vw c c0 r,
+  row_line kw vw c = [bar; sp] ++ c_key c ++ repeat sp (Z.to_nat (lg_key_pad (Z.of_nat kw) (Z.of_nat (List.length (c_key c))))) ++ [sp; bar; sp]
+                     ++ c_val c ++ repeat sp (Z.to_nat (lg_val_pad (Z.of_nat vw) (Z.of_nat (List.length (c_val c))))) ++ [sp; bar] /\
+  (let d := c0 :: r in exists rows, table_lines d = repeat dash (Z.to_nat (lg_frame_width (Z.of_nat (key_width d)) (Z.of_nat (val_width d)))) :: rows) /\
+  lg_empty_table (Z.of_nat (List.length (c0 :: r))) = false /\ lg_empty_table (Z.of_nat (List.length (@nil cell))) = true.
+Proof. exact frag_layout. Qed.
+Print Assumptions C20_human_layout_fragment.
+
+(* witness (Refuted/C20_human_slash_key.v): a key that starts with "/" and contains the tag of an earlier key loses its first len(tag) characters:
+   keys "-a/b", "/-a/c" (max_length 12): the table shows "/c" under "-a/" - the key cannot be read back although it fits *)
+Theorem C20_human_slash_led_key_misprinted_refuted :
+  exists m l,
+    Forall (fun e => (List.length (e_key e) + 3 <= m)%nat) l /\
+    option_map (map string_of_list_ascii) (write_lines m l) =
+      Some ["-------------"; "| -a/   |   |"; "|    b  | 1 |"; "|    /c | 2 |"; "-------------"]%string /\
+    map (fun e => string_of_list_ascii (e_key e)) l = ["-a/b"; "/-a/c"]%string.
+Proof. exact Refuted.C20_human_slash_key.C20_human_slash_led_key_misprinted_refuted. Qed.
+Print Assumptions C20_human_slash_led_key_misprinted_refuted.
